@@ -150,8 +150,11 @@ fn walk<T, N: ArrayLength>(name: &str, bad: &mut usize) {
             println!("FAIL layout;{name};N={n}: GenericArray has (size {sz}, align {al}); [T; N] has (size {snat}, align {at}); N * size_of::<T>() = {}", n as u128 * st as u128);
         }
     }''')
+    out.append('    println!("TABLE-DONE {} {}", TABLE.len(), bad);')
+    out.append('    use std::io::Write;')
     for lname, n, nty in walk_pairs:
         t = alldefs[lname][2]
+        out.append(f'    println!("WALK walk;{lname};N={n}"); std::io::stdout().flush().ok();')
         out.append(f'    walk::<{t}, {nty}>("{lname}", &mut bad);')
     out.append(f'    println!("PAIRS {{}} WALKS {len(walk_pairs)} BAD {{}}", TABLE.len(), bad);')
     out.append('}')
@@ -222,16 +225,28 @@ def run(part, tier):
             if outp is None:
                 raise Machinery(f'layout table crate {name} does not build:\n{err}')
             ok = False
+            table_done = False
+            last_walk = None
             for line in outp.splitlines():
                 if line.startswith('FAIL '):
                     body = line[5:]
                     desc, _, what = body.partition(': ')
                     viols.append({'desc': 'C01;' + desc, 'what': what[:500], 'stable': True})
+                elif line.startswith('TABLE-DONE '):
+                    table_done = True
+                    npairs += int(line.split()[1])
+                elif line.startswith('WALK '):
+                    last_walk = line[5:]
+                    nwalks += 1
                 elif line.startswith('PAIRS '):
-                    f = line.split()
-                    npairs += int(f[1]); nwalks += int(f[3]); ok = True
+                    ok = True
             if not ok:
-                raise Machinery(f'layout table binary {name} gave no summary: {err[-500:]}')
+                if table_done and last_walk:
+                    # the process died inside an address walk (e.g. std's debug precondition check on a misaligned slice view)
+                    key = [l.strip() for l in err.splitlines() if 'unsafe precondition' in l or 'panicked at' in l]
+                    viols.append({'desc': 'C01;' + last_walk, 'what': 'the process died while viewing this array as a slice: ' + ' | '.join(key[:2])[:400], 'stable': True})
+                else:
+                    raise Machinery(f'layout table binary {name} gave no summary: {err[-500:]}')
     depth_max = max(n.bit_length() for _, n, _ in pairs)
     samples = [{'layout': a, 'n': n, 'length_type': t[:80]} for a, n, t in (pairs[:2] + pairs[len(pairs) // 2: len(pairs) // 2 + 2] + pairs[-2:])] + [{'walk': a, 'n': n} for a, n, _ in walks[5:7]]
     result = {'evaluations': npairs + nwalks, 'distinct_nontrivial': sum(1 for _, n, _ in pairs if n > 0) + sum(1 for _, n, _ in walks if n > 0),
